@@ -9,7 +9,8 @@ Clauses (exactly the property text):
   stranded  state == Reconnected  =>  buffer empty   (what follows from a stranded message — it is never
             delivered, the stop overtakes it, the runner never reaches an empty buffer — is not reported again)
   dup       a second receipt of a message only after a failed attempt of that message
-  seq       one sequence number per message, kept across resends, unique
+  seq       one sequence number per message, kept across resends, unique — judged on the serialized message of
+            every send attempt (wire level) and on the message object whenever it is buffered
   order     run data of run r that was buffered before the stop notification of r was posted is received
             before that stop notification
 """
@@ -64,6 +65,22 @@ def check(res) -> list[tuple[str, str]]:
     for r in res.received:
         if res.seqs.get(r["id"], [r["seq"]])[0] != r["seq"]:
             out.append(("sequence-number-reassigned", f"message {r['id']} received with {r['seq']}"))
+
+    # --- seq on the wire: all attempts of one message carry one number, no number is used by two messages
+    wire: dict[int, list[int]] = {}
+    owner: dict[int, int] = {}
+    for a in res.attempts:
+        l = wire.setdefault(a["id"], [])
+        if a["seq"] not in l:
+            l.append(a["seq"])
+        if owner.setdefault(a["seq"], a["id"]) != a["id"]:
+            out.append(("sequence-number-shared", f"attempts of messages {owner[a['seq']]} and {a['id']} both "
+                                                  f"carried {a['seq']}"))
+    for i, l in sorted(wire.items()):
+        if len(l) != 1 or l[0] < 0:
+            out.append(("sequence-number-changed-across-attempts",
+                        f"message {i} went over the wire with sequence numbers {l}"))
+            break
 
     # --- dup: every receipt beyond the first needs an earlier failed attempt of the same message
     by_id: dict[int, list[dict]] = {}
